@@ -33,6 +33,15 @@
 // Documents: gen.ValidDoc and the same IR after 1-3 typed mutations (unknown fields / types / directives, wrong
 // literals, variables and wrong-kind literals at NESTED positions of list / input-object literals, several faults in
 // one literal …) over gen.SchemaGen schemas with custom directives, disjoint abstract types and list-shaped arguments.
+// Two more families (families.go), parseable but invalid on purpose: leafParent — selection sets under LEAF-typed fields
+// (scalar / enum, bare and in list / non-null wrappers) with inline fragments WITHOUT type condition (directives, nesting,
+// fields with their own selection sets) and typed ones, where GetNamed(Type()) and ParentType() differ; reentrant —
+// variables in field arguments, `@re` with >= 2 arguments, multi-item list literals with variables, object literals.
+//
+// Re-entrancy phase (reentrant.go), on every case: graphql.VisitUsingRules with an OBSERVER rule (the six getters of the
+// ValidationContext at every Enter / Leave) next to a POKER rule that calls ctx.VariableUsages / RecursiveVariableUsages
+// at a seeded callback of the traversal (biased to positions inside arguments and directives). VariableUsages is a pure
+// query: the observer's log must equal the plain VisitWithTypeInfo walk's callbacks (== M) and the observer-alone log.
 package main
 
 import (
@@ -174,6 +183,8 @@ type realRun struct {
 	order      []string
 	seq        []string // canonical rows in visiting order (enter-type callbacks)
 	events     []string // every callback that fired: canonical [slot, row...]
+	evKind     []string // per event: the node's kind
+	evEnter    []bool   // per event: an enter-type callback
 	skipped    [][]interface{}
 	leaveDiffs []string
 	finalState string // the six getters after the walk ("" if all nil)
@@ -310,6 +321,7 @@ func runReal(schema *graphql.Schema, doc *ast.Document, sh *shapeT, skip func(ki
 				r := append(rec{k, n.GetLoc().Start, n.GetLoc().End}, getters()...)
 				res.seq = append(res.seq, hx.Canon(r))
 				res.events = append(res.events, hx.Canon(append([]interface{}{slot}, r...)))
+				res.evKind, res.evEnter = append(res.evKind, k), append(res.evEnter, true)
 			}
 			if observed[k] && n.GetLoc() != nil {
 				r := append(rec{k, n.GetLoc().Start, n.GetLoc().End}, getters()...)
@@ -322,6 +334,7 @@ func runReal(schema *graphql.Schema, doc *ast.Document, sh *shapeT, skip func(ki
 				res.order = append(res.order, kk)
 				res.seq = append(res.seq, row)
 				res.events = append(res.events, hx.Canon(append([]interface{}{slot}, r...)))
+				res.evKind, res.evEnter = append(res.evKind, k), append(res.evEnter, true)
 				if skip != nil && skip(k, n.GetLoc().Start) {
 					res.skipped = append(res.skipped, []interface{}{k, n.GetLoc().Start})
 					return visitor.ActionSkip, nil
@@ -341,11 +354,13 @@ func runReal(schema *graphql.Schema, doc *ast.Document, sh *shapeT, skip func(ki
 			if observedM[k] && !observed[k] && n.GetLoc() != nil {
 				r := append(rec{k, n.GetLoc().Start, n.GetLoc().End}, getters()...)
 				res.events = append(res.events, hx.Canon(append([]interface{}{slot}, r...)))
+				res.evKind, res.evEnter = append(res.evKind, k), append(res.evEnter, false)
 			}
 			if observed[k] && n.GetLoc() != nil {
 				r := append(rec{k, n.GetLoc().Start, n.GetLoc().End}, getters()...)
 				row := hx.Canon(r)
 				res.events = append(res.events, hx.Canon(append([]interface{}{slot}, r...)))
+				res.evKind, res.evEnter = append(res.evKind, k), append(res.evEnter, false)
 				if paired {
 					if len(open) == 0 {
 						res.leaveDiffs = append(res.leaveDiffs, "leave without enter: "+row)
@@ -449,6 +464,8 @@ type caseT struct {
 	Doc       string         `json:"doc"`
 	Mutations []string       `json:"mutations"`
 	SkipSeed  uint64         `json:"skipSeed"`
+	Family    string         `json:"family,omitempty"` // "" | leafParent | reentrant (families.go)
+	Tags      []string       `json:"tags,omitempty"`   // histogram tags of the family's post-pass
 }
 
 var hooks = gq.Hooks{
@@ -468,7 +485,7 @@ func main() {
 		return
 	}
 	defer drv.Close()
-	run.Res.Rule = "schemas from gen.SchemaGen + custom directives + disjoint abstract types + list-shaped arguments; documents = gen.ValidDoc and the same document after 1-3 typed mutations; the real TypeInfo is read at every Enter of visitor.VisitWithTypeInfo and compared node by node with the top-down model S and, as a row sequence, with the stack machine M (lean/GqlModel/TypeInfoStacks.lean); a second walk uses a wrapped visitor of a random shape (enter+leave, enter-only, leave-only, KindFuncMap Kind/Enter/Leave subsets, Enter/LeaveKindMap, mixed), skips random nodes, and every callback that fires (slot, node, getters) is compared in order with M run with the same option set and skip list; at every Leave the getters must equal those at Enter and after the walk be nil; non-trivial = >= 8 observed nodes, at least one with a non-nil input type or a non-nil parent type; distinct by (schema, document text)"
+	run.Res.Rule = "schemas from gen.SchemaGen + custom directives + disjoint abstract types + list-shaped arguments; documents = gen.ValidDoc and the same document after 1-3 typed mutations; the real TypeInfo is read at every Enter of visitor.VisitWithTypeInfo and compared node by node with the top-down model S and, as a row sequence, with the stack machine M (lean/GqlModel/TypeInfoStacks.lean); a second walk uses a wrapped visitor of a random shape (enter+leave, enter-only, leave-only, KindFuncMap Kind/Enter/Leave subsets, Enter/LeaveKindMap, mixed), skips random nodes, and every callback that fires (slot, node, getters) is compared in order with M run with the same option set and skip list; at every Leave the getters must equal those at Enter and after the walk be nil; two more document families: selection sets with typeless / typed inline fragments under leaf-typed fields (leafParent), and variables / @re with >= 2 arguments / multi-item list and object literals (reentrant); on every case a VisitUsingRules pass with an observer rule (six ValidationContext getters at every Enter/Leave) next to a rule calling ctx.VariableUsages / RecursiveVariableUsages at a seeded callback (1 position per case, 3 on reentrant documents; biased to inside arguments / directives) must show the observer exactly the callbacks of the plain walk, and so must the observer alone; non-trivial = >= 8 observed nodes, at least one with a non-nil input type or a non-nil parent type; distinct by (schema, document text)"
 
 	one := func(c caseT) {
 		b, err := gq.Build(c.Schema, hooks)
@@ -620,13 +637,71 @@ func main() {
 				problems = append(problems, d)
 			}
 		}
+		// re-entrancy: a rule that asks the ValidationContext for variable usages in the middle of a VisitUsingRules pass
+		// must not change what a rule running next to it is shown (reentrant.go)
+		if rr.panicked == "" {
+			pr := hx.NewRng(c.SkipSeed ^ 0x9e3779b97f4a7c15)
+			sites := classify(rr.evKind, rr.evEnter)
+			npokes := 1
+			if c.Family == "reentrant" {
+				npokes = 3
+			}
+			alone := c.Family == "reentrant" || c.SkipSeed%3 == 0
+			var pokes []*pokeT
+			for j := 0; j < npokes; j++ {
+				poke := drawPoke(pr, sites)
+				if poke == nil {
+					break
+				}
+				pokes = append(pokes, poke)
+				pk := runRules(&b.Schema, doc, poke)
+				run.Tag("reentrantVariableUsages")
+				run.Tag("reentrantVariableUsages:" + poke.Mode)
+				run.Tag("reentrantVariableUsages@" + poke.Where)
+				what := fmt.Sprintf("VisitUsingRules with a rule calling VariableUsages (%s, %s the observer) at callback %d (%s)", poke.Mode, map[bool]string{true: "before", false: "after"}[poke.First], poke.K, poke.Where)
+				switch {
+				case pk.panicked != "":
+					problems = append(problems, what+" panicked: "+pk.panicked)
+				case !pk.fired:
+					run.CheckError(fmt.Sprintf("the poker rule never fired (k=%d of %d callbacks)", poke.K, sites.n))
+				default:
+					if d := seqDiff(what+": the observer rule's type info differs from the plain walk (real = next to the poker, M = plain VisitWithTypeInfo walk)", pk.events, rr.events); d != "" {
+						problems = append(problems, d)
+						alone = true
+					}
+					if pk.finalState != "" {
+						problems = append(problems, what+": afterwards the TypeInfo is not empty again: "+pk.finalState)
+					}
+				}
+			}
+			if alone {
+				al := runRules(&b.Schema, doc, nil)
+				run.Tag("observer-rule-alone")
+				if al.panicked != "" {
+					problems = append(problems, "VisitUsingRules with the observer rule alone panicked: "+al.panicked)
+				} else {
+					if d := seqDiff("VisitUsingRules with the observer rule alone differs from the plain walk (real = rule, M = plain VisitWithTypeInfo walk)", al.events, rr.events); d != "" {
+						problems = append(problems, d)
+					}
+					if al.finalState != "" {
+						problems = append(problems, "after VisitUsingRules with the observer rule alone the TypeInfo is not empty again: "+al.finalState)
+					}
+				}
+			}
+		}
 		if skipped > 0 {
 			run.Tag("walk-with-skips")
+		}
+		for _, t := range c.Tags {
+			run.Tag(t)
+		}
+		if c.Family != "" {
+			run.Tag("family:" + c.Family)
 		}
 		for _, m := range c.Mutations {
 			run.Tag("mutation:" + m)
 		}
-		if len(c.Mutations) == 0 {
+		if len(c.Mutations) == 0 && c.Family == "" {
 			run.Tag("base-document")
 		}
 		run.Case(hx.Canon(c.Schema)+"\x00"+c.Doc, len(order) >= 8 && typed, map[string]interface{}{"doc": c.Doc, "nodes": len(order)})
@@ -666,6 +741,24 @@ func main() {
 		sd, _, text := mk(run.Seed, i)
 		one(caseT{Schema: sd, Doc: text, SkipSeed: run.Seed*31 + uint64(i)})
 		view := gen.NewSchemaView(sd)
+		// families (families.go), alternating: selection sets with typeless inline fragments under leaf-typed fields /
+		// material for the re-entrancy phase (the schema gets the directive @re)
+		{
+			rf := hx.Fork(run.Seed^0x7f4a7c15, i)
+			_, mf, _ := mk(run.Seed, i)
+			if i%2 == 0 {
+				if tags := addLeafParents(rf, view, mf.Doc); len(tags) > 0 {
+					one(caseT{Schema: sd, Doc: mf.Doc.Render(), SkipSeed: run.Seed*41 + uint64(i), Family: "leafParent", Tags: tags})
+				}
+			} else {
+				sd2, _, _ := mk(run.Seed, i)
+				re := reDirective(sd2)
+				sd2.Directives = append(sd2.Directives, re)
+				if tags := addReentrantMaterial(rf, gen.NewSchemaView(sd2), re, mf.Doc); len(tags) > 0 {
+					one(caseT{Schema: sd2, Doc: mf.Doc.Render(), SkipSeed: run.Seed*43 + uint64(i), Family: "reentrant", Tags: tags})
+				}
+			}
+		}
 		for variant := 0; variant < 2; variant++ {
 			r2 := hx.Fork(run.Seed^0x2545f491, i*2+variant)
 			_, m2, _ := mk(run.Seed, i)
